@@ -15,7 +15,8 @@ name and different values per member); lower / upper bound columns `<free variab
 Independent oracle (no `canonical_signed`): the generator's own (name, sign) classes.  What was
 written under name `n` (sign `s`) with values `s*v` must be seen as `s' * v` through every name
 `(n', s')` of the class in `history(m)`, `seed(m)`, `constant_inputs(m)`, `bounds()`,
-`get_timeseries(n', m)`, `timeseries_at(n', t, m)` -- a bound pair swapped and negated -- and, when
+`get_timeseries(n', m)`, `timeseries_at(n', t, m)` -- a bound pair swapped and negated, the side of
+a missing `_Min` / `_Max` column staying `None` -- and, when
 the problem is solved, in the first point of `extract_results(m)`.
 
 Correspondence: the Lean reader `readListed` (Model/C13IO.lean; Drivers/C13.lean op `read`) builds an
@@ -135,7 +136,16 @@ def gen_member_data(rng, spec, hours, free_names, with_bounds):
         if with_bounds and kind != "const" and base in free_names and rng.random() < 0.5:
             lo = [float(rng.randint(-3000, -2100)) for _ in range(T)]
             hi = [float(rng.randint(2100, 4000)) for _ in range(T)]
-            bnd[base] = {"through": free_names[base][0], "sign": free_names[base][1], "base_lo": lo, "base_hi": hi}
+            # only a `_Min` or only a `_Max` column: the other side of the pair is None (stays missing
+            # through a negated name -- finding F56).  The kept column is the listed name's own side.
+            sf = free_names[base][1]
+            cols = rng.choice(["both", "both", "min", "max"])
+            if cols != "both":
+                if (cols == "min") == (sf > 0):
+                    hi = None
+                else:
+                    lo = None
+            bnd[base] = {"through": free_names[base][0], "sign": sf, "columns": cols, "base_lo": lo, "base_hi": hi}
     return {"ts": ts, "init": init, "bnd": bnd, "no_initial_state_file": rng.random() < 0.12}
 
 
@@ -149,12 +159,22 @@ def ts_columns(data):
     for base, e in data["ts"].items():
         cols.append((e["through"], [e["sign"] * v for v in e["base_values"]]))
     for base, e in data["bnd"].items():
-        lo, hi = e["base_lo"], e["base_hi"]
-        if e["sign"] < 0:
-            lo, hi = [-v for v in e["base_hi"]], [-v for v in e["base_lo"]]
-        cols.append((e["through"] + "_Min", lo))
-        cols.append((e["through"] + "_Max", hi))
+        lo, hi = own_sides(e)
+        if lo is not None:
+            cols.append((e["through"] + "_Min", lo))
+        if hi is not None:
+            cols.append((e["through"] + "_Max", hi))
     return cols
+
+
+def own_sides(e):
+    """the bound pair in the orientation of the name the columns are written for"""
+    neg = lambda l: None if l is None else [-v for v in l]  # noqa: E731
+    return (e["base_lo"], e["base_hi"]) if e["sign"] > 0 else (neg(e["base_hi"]), neg(e["base_lo"]))
+
+
+def side_ts_wire(secs, values):
+    return {"k": "none"} if values is None else ts_wire(secs, values)
 
 
 def init_columns(data):
@@ -206,8 +226,7 @@ def expected(data, base, kind, secs, nhist=1):
         else:
             exp["seed"] = ts_wire(secs, [0.0 if v != v else v for v in ts["base_values"]])
     if bnd is not None:
-        lo, hi = ts_wire(secs, bnd["base_lo"]), ts_wire(secs, bnd["base_hi"])
-        exp["bounds"] = {"k": "tup", "v": [lo, hi]}
+        exp["bounds"] = {"k": "tup", "v": [side_ts_wire(secs, bnd["base_lo"]), side_ts_wire(secs, bnd["base_hi"])]}
     return exp
 
 
@@ -233,8 +252,11 @@ def observe_member(c, p, spec, data, m, secs, nhist, mode, case, lines, pending,
             rb = _call(lambda: d[base])
             for n, s in members:
                 rn = _call(lambda: d[n])
-                c.count(("io", mode, what, kind, through, s, e is not None, m > 0))
+                c.count(("io", mode, what, kind, through, s, e is not None, m > 0,
+                         data["bnd"].get(base, {}).get("columns") if what == "bounds" else None))
                 c.hit("io/%s/%s" % (mode, what))
+                if what == "bounds" and e is not None and data["bnd"][base]["columns"] != "both" and s < 0:
+                    c.hit("io/%s/bounds-one-column-through-negated-name" % mode)
                 if e is None:
                     # nothing was put in for this quantity: all names agree (present or absent)
                     if rb[0] != rn[0] or (rb[0] == "ok" and to_wire(rn[1]) != spec_signed(s, to_wire(rb[1]))):
@@ -242,8 +264,9 @@ def observe_member(c, p, spec, data, m, secs, nhist, mode, case, lines, pending,
                                {"base": rb[0], "alias": rn[0]})
                     continue
                 if rn[0] != "ok":
-                    c.fail("%s of member %d: the file gives %r through the name %r, but nothing is found through %r"
-                           % (what, m, base, data[src.get(what, "ts")][base]["through"], n), case,
+                    c.fail("%s of member %d: the file gives %r through the name %r, but reading through %r %s"
+                           % (what, m, base, data[src.get(what, "ts")][base]["through"], n,
+                              "finds nothing" if rn[0] == "KeyError" else "raises " + rn[0][6:]), case,
                            {"result": rn, "expected": spec_signed(s, e)})
                 elif to_wire(rn[1]) != spec_signed(s, e):
                     c.fail("%s of member %d through %r is not sign * what the file gives through %r"
@@ -297,8 +320,8 @@ def observe_member(c, p, spec, data, m, secs, nhist, mode, case, lines, pending,
     if m == 0:
         puts["bounds"] = []
         for b, e in data["bnd"].items():
-            lo, hi = (e["base_lo"], e["base_hi"]) if e["sign"] > 0 else ([-v for v in e["base_hi"]], [-v for v in e["base_lo"]])
-            puts["bounds"].append((e["through"], {"k": "tup", "v": [ts_wire(secs, lo), ts_wire(secs, hi)]}))
+            lo, hi = own_sides(e)
+            puts["bounds"].append((e["through"], {"k": "tup", "v": [side_ts_wire(secs, lo), side_ts_wire(secs, hi)]}))
         cover["bounds"] = set(data["bnd"])
     # which names the reader loops over (public `dae_variables`); history is read in two stages:
     # IOMixin.history from the imported series, then CSVMixin.history from initial_state.csv
